@@ -2659,6 +2659,15 @@ fintEvalBCall(DataObj retDataObj)
 		myType = FOAM_SInt;
 		break;
 
+	case FOAM_BVal_SIntTimesModInv:
+		(void)fintEval(&expr1);
+		(void)fintEval(&expr2);
+		(void)fintEval(&expr3);
+		(void)fintEval(&expr4);	/* 1/modulus: a speed hint only */
+		retDataObj->fiSInt = (expr1.fiSInt * expr2.fiSInt) % expr3.fiSInt;
+		myType = FOAM_SInt;
+		break;
+
 	case FOAM_BVal_SIntLength:
 		(void)fintEval(&expr1);
 
